@@ -925,6 +925,25 @@ class Controller:
         self._take(b, val)
         return val
 
+    def assume_local(self, b):
+        """a precondition stated after decisions have been taken: it becomes part of THIS path's condition (a forced
+        decision with value True); a path on which it cannot hold is dropped"""
+        k = self.known.get(b.id)
+        if k is True:
+            return
+        nb = bnot(b)
+        if k is False or self.known.get(nb.id) is True:
+            raise Infeasible('precondition contradicts the path condition: ' + show(b, 3))
+        if self.pos < len(self.prefix):
+            self.pos += 1
+            self._take(b, True)
+            return
+        if not self._feasible(b):
+            raise Infeasible('precondition infeasible on this path: ' + show(b, 3))
+        self.stats['forced'] += 1
+        self.pos += 1
+        self._take(b, True)
+
     def _take(self, b, val):
         self.taken.append(val)
         self.known[b.id] = val
